@@ -38,12 +38,12 @@ def enum_programs(tier):
 
     r = random.Random(harness.seed() + 5)
     out = []
-    strings = ["Hi", "Day", "Night", "A b", "x", "ABCDEF", "0", "Main Battery", "Ünï", "tank-1", "a#b", "q"]
+    strings = ["Hi", "Day", "Night", "A b", "x", "ABCDEF", "0", "Main Battery", "Ünï", "tank-1", "a#b", "q", " lead", "trail ", " both ", "Bay 1 ", "t\\tb"]
     n = 60 if tier == "thorough" else 10
     for i in range(n):
         def pick(e):
             return r.choice(list(en[e]))
-        s1 = r.choice([s for s in strings if len(s) <= 6 and s.isascii()])
+        s1 = r.choice([s for s in strings if len(s) <= 6 and s.isascii() and "\\" not in s])
         src = ENUM_PROG.format(m1=pick("DisplayMode"), c1=pick("Color"), s1=s1, h1=r.choice(strings), h2=r.choice(strings),
                                lt=pick("LogicType"), bm=pick("LogicBatchMethod"), sc=pick("SortingClass"), sl=pick("SlotClass"))
         out.append((f"enum:{i}", src))
